@@ -126,6 +126,8 @@ pub struct ServerMode {
     pub read_pause_us: u64,
     /// do not read at all (peer runs into flow control)
     pub never_read: bool,
+    /// wait this long before the first read of every stream, then drain in one burst
+    pub read_delay_ms: u64,
     /// send STOP_SENDING after reading this many bytes
     pub stop_sending_after: Option<u64>,
     /// reset the echo/reply direction after writing this many bytes
@@ -665,6 +667,9 @@ async fn server_stream(stream: PeerStream, rec: Rec, mode: ServerMode) {
             if mode.never_read {
                 futures::future::pending::<()>().await;
             }
+            if mode.read_delay_ms > 0 {
+                time::delay(Duration::from_millis(mode.read_delay_ms)).await;
+            }
             read_stream(r, C2S ^ id, rec, SERVER, mode.small_read, mode.read_pause_us, mode.stop_sending_after).await;
         }
         PeerStream::Bidirectional(s) => {
@@ -676,6 +681,9 @@ async fn server_stream(stream: PeerStream, rec: Rec, mode: ServerMode) {
                 return;
             }
             let (mut r, mut w) = s.split();
+            if mode.read_delay_ms > 0 {
+                time::delay(Duration::from_millis(mode.read_delay_ms)).await;
+            }
             if mode.echo {
                 use futures::io::AsyncReadExt;
                 let mut off = 0u64;
